@@ -109,3 +109,11 @@ def absr(x):
 @spec
 def opt_min(a, b):
     return ite(is_none(a), b, ite(is_none(b), a, ite(some(a) <= some(b), a, b)))
+
+
+# ---------------------------------------------------------------- C11: retrieval
+
+@spec
+def ep_ts(e):
+    """the timestamp string the index parses for an episode: e.get("ts") or "" """
+    return ite("ts" in e and len(e["ts"]) > 0, e["ts"], "")
